@@ -42,6 +42,8 @@ EXPECT = {
     "seed-C12-l": ["C12", "C02"], "seed-C13-l": ["C13"], "seed-C16-l": ["C16", "C01"],
     "seed-C06-m": ["C06"], "seed-C07-m": ["C07"], "seed-C09-m": ["C09"], "seed-C10-m": ["C10"], "seed-C11-m": ["C11", "C02"], "seed-C14-m": ["C14"],
     "seed-C15-m": ["C15"], "seed-C17-m": ["C17", "C14"], "seed-C19-m": ["C19"],
+    "seed-C01-n": ["C01"], "seed-C02-n": ["C02"], "seed-C03-n": ["C03"], "seed-C04-n": ["C04", "C05"], "seed-C05-n": ["C05"], "seed-C07-n": ["C07"],
+    "seed-C08-n": ["C08", "C07"], "seed-C12-n": ["C12", "C02"], "seed-C13-n": ["C13"], "seed-C16-n": ["C16"],
 }
 
 
